@@ -198,7 +198,21 @@ def d4(ck: Check) -> None:
         tr = logic.Translator(lambda e: text(e), atomize=atomize)
         pc = logic.And(*[(tr.f(t) if p else logic.Not(tr.f(t))) for t, p, b in facts])
         want = logic.Or(logic.Not(logic.B("T:successful_only")), logic.B("T:INTERVENTION.successful"))
-        if not logic.equivalent(pc, want):
+        filtered_later = False
+        if pc is logic.TRUE or not logic.atoms(pc):
+            # everything is collected, and the unsuccessful ones are dropped afterwards when only successful ones are wanted
+            rets_ = [r for r in own_walk(sc.f.node) if isinstance(r, ast.Return) and isinstance(r.value, ast.Name) and r.value.id == res_sc]
+            for r in rets_:
+                for d_ in sc.cfg.reaching_defs(res_sc, sc.cfgn(r)):
+                    v_ = d_.ast.value if d_.kind == "stmt" and isinstance(d_.ast, ast.Assign) else None
+                    if isinstance(v_, ast.ListComp) and len(v_.generators) == 1 and isinstance(v_.generators[0].target, ast.Name) \
+                            and text(v_.elt) == v_.generators[0].target.id and text(v_.generators[0].iter) == res_sc \
+                            and len(v_.generators[0].ifs) == 1 and text(v_.generators[0].ifs[0]) == f"{v_.generators[0].target.id}.successful":
+                        pcd = logic.And(*[(logic.Translator(lambda e: text(e)).f(t) if p else logic.Not(logic.Translator(lambda e: text(e)).f(t)))
+                                          for t, p, b in sc.facts(d_) if b.loop is None])
+                        if logic.equivalent(pcd, logic.B("T:successful_only")):
+                            filtered_later = True
+        if not filtered_later and not logic.equivalent(pc, want):
             probs.append(f"an intervention is returned under `{logic.show(pc)}`, expected `not successful_only or successful`")
         okc = isinstance(iv_e, ast.Call) and callee_name(iv_e) == "Intervention" and len(iv_e.args) == 3
         if okc:
@@ -348,10 +362,35 @@ def d6(ck: Check) -> None:
     if es:
         pc = fm.pc(fm.cfgn(es[0]))
         want = logic.And(logic.B("T:found_valid_target_node"), logic.Not(logic.Lt("0", "len(successions)")))
+        # "some node has no forbidden node below it", as a flag raised in the node loop or as the length of the list of
+        # those nodes (the filter of that list being the test that the node loop skips on)
+        listed = None
+        for a_ in logic.atoms(pc):
+            if a_[0] == "lt" and a_[1] == "0" and a_[2].startswith("len(") and a_[2] != "len(successions)":
+                V = a_[2][4:-1]
+                sd_ = fm.single_def(V, fm.cfgn(es[0])) if V.isidentifier() else None
+                if sd_ and isinstance(sd_[1], ast.ListComp) and len(sd_[1].generators) == 1 and len(sd_[1].generators[0].ifs) == 1 \
+                        and isinstance(sd_[1].generators[0].target, ast.Name) and text(sd_[1].elt) == sd_[1].generators[0].target.id \
+                        and text(sd_[1].generators[0].iter).endswith(".node_ids()"):
+                    c_ = sd_[1].generators[0].ifs[0]
+                    neg_ = False
+                    while isinstance(c_, ast.UnaryOp) and isinstance(c_.op, ast.Not):
+                        c_, neg_ = c_.operand, not neg_
+                    tv_ = sd_[1].generators[0].target.id
+                    for n_ in own_walk(f.node):
+                        if isinstance(n_, ast.Continue) and isinstance(f.parents.get(n_), ast.If) and n_ in f.parents[n_].body:
+                            lps_ = fm.cfg.enclosing_loops(fm.cfgn(n_))
+                            if lps_ and isinstance(lps_[0], ast.For) and isinstance(lps_[0].target, ast.Name) \
+                                    and text(lps_[0].iter) == text(sd_[1].generators[0].iter):
+                                t_ = f.parents[n_].test
+                                if neg_ and text(logic._rename(c_, tv_, lps_[0].target.id)) == text(t_):
+                                    listed = a_
+        if listed is not None:
+            want = logic.And(("atom", listed) if listed[0] == "b" else logic.Lt("0", listed[2]), logic.Not(logic.Lt("0", "len(successions)")))
         if not logic.equivalent(pc, want):
             probs.append(f"the empty succession is reported under `{logic.show(pc)}`")
         fv = [n for n in own_walk(f.node) if isinstance(n, ast.Assign) and text(n.targets[0]) == "found_valid_target_node" and is_true(n.value)]
-        if not fv:
+        if not fv and listed is None:
             probs.append("found_valid_target_node is never set")
     ck.ob("D6", fm, es[0] if es else f.node, not probs, "; ".join(probs) if probs else
           "empty succession iff an end node exists and no path was listed (target holds without control)", key="empty succession")
